@@ -136,6 +136,8 @@ class Obligation:
         self.model = None
         self.note = ''
         self.global_facts = []
+        self.ex = None
+        self.concrete = None
 
 
 _fresh_counter = itertools.count()
@@ -466,6 +468,7 @@ class Exec:
     def prove(self, name, pc, goal, detail='', kind='proof'):
         ob = Obligation(self.prefix + '/' + name, list(pc), goal, kind=kind, detail=detail)
         ob.global_facts = self.global_facts       # shared list: complete by the time the obligation is discharged
+        ob.ex = self
         self.obls.append(ob)
         return ob
 
